@@ -358,6 +358,7 @@ func runC15(e *Engine, r *Report) {
 	borrow(e, r, "C13", "VAL-frame")
 	ruleChunkKeyInjective(e, r)
 	ruleChunkCountSource(e, r)
+	ruleChunkDataLoad(e, r)
 }
 
 // methodNamed: the call is a (static or interface) call of a method/function named name.
